@@ -2,6 +2,8 @@
   C19 — ELF-section iteration decodes 32/64-bit entries in order, inside the tag.
   `T` = permitted extent of the tag, `v.n = size − 20` = number of section bytes `L`.
 -/
+import Mb2.Props.FnsElfOpen
+import Mb2.Props.FnsElfType
 import Mb2.Tags
 import Mb2.Lemmas.Arith
 namespace Mb2.C19
